@@ -80,7 +80,8 @@ func RunCases(r *hx.Run, pki *PKI, cases []Case, ids []string, workers int, nont
 	}
 }
 
-// Baseline runs the all-OK dialogue of a configuration: number of positions, index of the AUTH position (-1: none)
+// Baseline runs the all-OK dialogue of a configuration: number of script positions (decisions consumed: greeting,
+// command lines, every client line of an AUTH exchange, end-of-data), index of the AUTH command's position (-1: none)
 func Baseline(pki *PKI, c Case) (n, authPos int, srv string, err error) {
 	c.Script = nil
 	o, err := Run(c, pki, 3*time.Second)
@@ -88,16 +89,15 @@ func Baseline(pki *PKI, c Case) (n, authPos int, srv string, err error) {
 		return 0, -1, "", err
 	}
 	authPos = -1
-	if o.Srv == "-" {
-		return 0, -1, o.Srv, nil
-	}
-	ents := strings.Split(o.Srv, ",")
-	for i, e := range ents {
-		if strings.HasPrefix(e, "AUTH:") && authPos < 0 {
-			authPos = i
+	if o.Srv != "-" {
+		// up to and including the AUTH command positions and log entries are one to one
+		for i, e := range strings.Split(o.Srv, ",") {
+			if strings.HasPrefix(e, "AUTH:") && authPos < 0 {
+				authPos = i
+			}
 		}
 	}
-	return len(ents), authPos, o.Srv, nil
+	return o.Positions, authPos, o.Srv, nil
 }
 
 func OKs(n int) []string {
